@@ -18,7 +18,7 @@ pub const FLOORS: &[&str] = &[
     "eval:jump_label", "eval:trap_output", "eval:stack", "pc_not_origin", "label_before_pc",
     "label_after_pc", "refused:br", "refused:rti", "refused:halt", "refused:unknown_trap",
     "malformed:missing", "malformed:surplus", "malformed:wrong_kind", "malformed:directive",
-    "malformed:two_instructions", "malformed:undefined_label", "label_out_of_reach",
+    "malformed:two_instructions", "malformed:undefined_label", "label_out_of_reach", "eval:outside_user_space",
 ];
 
 enum Expect {
@@ -281,6 +281,23 @@ fn one_case(seed: u64, i: u64) -> CaseOut {
                 lines.push(format!("goto x{:04x}", pc));
                 cur = pc;
             }
+        }
+    }
+    if rng.chance(1, 3) {
+        // get the PC out of user space with a jump, then keep evaluating there
+        let target = *rng.pick(&[0xFE00u16, 0xFFFF, 0x0000, orig.wrapping_sub(1), 0xFE05]);
+        lines.push(format!("move r5 x{:04x}", target));
+        evals.push((lines.len(), EvalCmd { text: "jmp r5".into(), expect: Expect::Exec { word: 0xC140, jump: true, class: "eval:jump_reg" } }));
+        lines.push("eval jmp r5".into());
+        for _ in 0..2 {
+            let d = rng.below(5) as u8;
+            let (text, word) = match rng.below(3) {
+                0 => (format!("add r{} r{} #3", d, d), 0x1020 | (d as u16) << 9 | (d as u16) << 6 | 3),
+                1 => (format!("not r{} r{}", d, d), 0x903F | (d as u16) << 9 | (d as u16) << 6),
+                _ => (format!("and r{} r{} #0", d, d), 0x5020 | (d as u16) << 9 | (d as u16) << 6),
+            };
+            evals.push((lines.len(), EvalCmd { text: text.clone(), expect: Expect::Exec { word, jump: false, class: "eval:outside_user_space" } }));
+            lines.push(format!("eval {}", text));
         }
     }
     lines.push("exit".into());
